@@ -124,6 +124,11 @@ class RunProbe:
             self.rec.fired('task-raise')
             self.rec.ev('fault', 'raise', n)
             raise PlannedFailure(n)
+        if f == 'sysexit':
+            # a task that calls sys.exit(): fails with a BaseException that is not an Exception
+            self.rec.fired('task-sysexit')
+            self.rec.ev('fault', 'raise', n)
+            raise SystemExit(3)
         if f == 'die' and self.s1:
             self.rec.fired('task-die')
             self.rec.ev('fault', 'die', n)
@@ -501,6 +506,7 @@ class Outcome:
         self.retention_stats: dict = {}
         self.rest_points = 0
         self.real_clock = False
+        self.built = None
 
     def digest(self) -> str:
         ev = self.events
@@ -518,7 +524,8 @@ class Outcome:
         return tuple(e[1] for e in self.events if e[0] == 'complete')
 
 
-def execute(sc: dict, ch: Choices, storage_dir: Optional[str], storage_obj=None) -> Outcome:
+def execute(sc: dict, ch: Choices, storage_dir: Optional[str], storage_obj=None, built: Optional[Built] = None,
+            session: Optional[dict] = None) -> Outcome:
     """Runs warm-up (if the spec asks for a cache pre-state) and then the main
     run_tasks call on the substrate named by sc['backend']."""
     out = Outcome()
@@ -526,8 +533,20 @@ def execute(sc: dict, ch: Choices, storage_dir: Optional[str], storage_obj=None)
     backend = sc['backend']
     ref = Ref(sc)
     if storage_dir is not None and sc.get('cached') and not sc.get('skip_warm'):
-        out.pre_values = warm_cache(sc, storage_dir)
-    built = Built(sc)
+        try:
+            out.pre_values = warm_cache(sc, storage_dir)
+        except Exception as ex:
+            # the earlier run that should create the cache pre-state is itself a labtech run in which every task succeeds
+            out.kind = 'warmup-failed'
+            out.exc = describe_exc(ex)
+            out.events = [('warmup-failed', out.exc['type'])]
+            return out
+    if built is None:
+        built = Built(sc)
+    else:
+        # a persistent universe of task objects (the same instances are passed to several run_tasks calls)
+        built.requested = [built.get(nid, fresh) for nid, fresh in sc['requested']]
+    out.built = built
     out.instance_children = built.children
     out.instance_node = built.serial_node
     out.requested_serials = [built.serial_of[id(t)] for t in built.requested]
@@ -673,9 +692,20 @@ def execute(sc: dict, ch: Choices, storage_dir: Optional[str], storage_obj=None)
     def _close_window(*e):
         pass
 
-    lab = labtech.Lab(storage=storage_arg, continue_on_failure=sc.get('cof', True),
-                      max_workers=sc.get('max_workers'), notebook=False, context=context,
-                      runner_backend=rb)
+    if session is not None and session.get('lab') is not None:
+        # the same Lab object serves several run_tasks calls; only what this run draws per call is set
+        lab = session['lab']
+        lab.runner_backend = rb
+        if session.get('sim_storage') is not None:
+            session['sim_storage'].ctl = ctl
+    else:
+        lab = labtech.Lab(storage=storage_arg, continue_on_failure=sc.get('cof', True),
+                          max_workers=sc.get('max_workers'), notebook=False, context=context,
+                          runner_backend=rb)
+        if session is not None:
+            session['lab'] = lab
+            session['sim_storage'] = sim_storage
+            sim_storage = None      # released by the owner of the session
     show = bool(sc.get('progress'))
     devnull = None
     import sys as _sys
@@ -699,6 +729,28 @@ def execute(sc: dict, ch: Choices, storage_dir: Optional[str], storage_obj=None)
         rec.ev = ev2   # type: ignore
 
     try:
+        prelude = sc.get('prelude')
+        if prelude:
+            # an earlier run_tasks call of the same interpreter (same simulated OS) with another configuration
+            from .tasklib import TN
+            p_inner = {'serial': SerialRunnerBackend, 'fork': ForkRunnerBackend, 'spawn': SpawnRunnerBackend}.get(backend)
+            if p_inner is not None:
+                old_fail, probe.fail = probe.fail, {}
+                keep_mode = None
+                if sim is not None:
+                    keep_mode, sim.gate_mode = sim.gate_mode, 'free'
+                plab = labtech.Lab(storage=None, continue_on_failure=True, max_workers=prelude.get('max_workers'),
+                                   notebook=False, context={}, runner_backend=p_inner())
+                plab.run_tasks([TN(ident=900 + i, tag='prelude') for i in range(prelude.get('n', 3))],
+                               disable_progress=True, disable_top=True)
+                probe.fail = old_fail
+                if sim is not None:
+                    sim.block('prelude-drain', lambda: not any(x.kind == 'worker' and x.alive for x in sim.entities))
+                    sim.gate_mode = keep_mode
+                    sim.quiet_polls = 0
+                del rec.events[:]
+                rec.ev('prelude-done', prelude.get('max_workers'))
+                rec.fired('prelude-run')
         if need_lines:
             linemon.start(handler)
         rec.in_run = True
